@@ -724,7 +724,16 @@ func (w *DispatchWorld) Tick(k int) bool {
 // Drain: faults stop, the clock is advanced to the next due instant again and
 // again: every message must end delivered or dead (bounded liveness, C06c).
 func (w *DispatchWorld) Drain() {
-	for round := 0; round < 400; round++ {
+	// step budget: every message may need retry.max+1 deliveries, each preceded
+	// by one clock jump
+	budget := 100
+	for _, dm := range w.pub {
+		budget += 3 * (w.retryFor(dm.target).Max + 2)
+	}
+	if budget > 6000 {
+		budget = 6000
+	}
+	for round := 0; round < budget; round++ {
 		progress := false
 		ds := w.Sched.Daemons(w.group)
 		for i := range ds {
@@ -760,7 +769,7 @@ func (w *DispatchWorld) Drain() {
 	}
 	for _, x := range w.Model.Msgs {
 		if x.State == queue.StateQueued || x.State == queue.StateLeased {
-			w.add("C06.liveness", "C06,C05", "dispatch/drain", "message %s is still %s (attempt %d) after 400 dispatcher rounds with faults off", x.ID, x.State, x.Attempt)
+			w.add("C06.liveness", "C06,C05", "dispatch/drain", "message %s is still %s (attempt %d) after %d dispatcher rounds with faults off", x.ID, x.State, x.Attempt, budget)
 			return
 		}
 	}
